@@ -8,6 +8,10 @@
 
 #include <asmjit/support/support.h>
 
+#if defined(ASMJIT_VERIF)
+  #include <asmjit/support/verif_p.h>
+#endif
+
 ASMJIT_BEGIN_NAMESPACE
 
 //! \addtogroup asmjit_support
@@ -316,6 +320,12 @@ public:
   [[nodiscard]]
   ASMJIT_INLINE T* alloc_oneshot(size_t size) noexcept {
     ASMJIT_ASSERT(Support::is_aligned(size, kAlignment));
+
+#if defined(ASMJIT_VERIF)
+    if (asmjit_verif_arena_request(this, size)) {
+      return nullptr;
+    }
+#endif
 
 #if defined(__GNUC__)
     // We can optimize this function a little bit if we know that `size` is relatively small - which would mean
